@@ -60,7 +60,7 @@ func WithCancel(parent Context) (Context, CancelFunc) {
 		}
 	}
 	return c, func() {
-		vsched.Step()
+		vsched.StepK(vsched.KCancel)
 		c.cancel()
 	}
 }
